@@ -203,7 +203,7 @@ impl<'a> Rd<'a> {
             return Ok(Dev::VarIdx { outer: a, inner: b });
         }
         if !(1..=3).contains(&f) || b < a {
-            return Err(format!("device table at {at}: start {a} end {b} format {f:#x}"));
+            return Err(format!("device table at {at}: start {a} end {b} format {f} is neither a Device (format 1-3, end >= start) nor a VariationIndex (format 32768)"));
         }
         let count = (b - a) as usize + 1;
         let per_word = [8usize, 4, 2][f as usize - 1];
